@@ -1,0 +1,160 @@
+//go:build verif
+
+// Contracts for conv/j2p (dgv). Comment-only file.
+package j2p
+
+// OnObjectKey (the JSON visitor's handler for a member name), message and list-of-message contexts (the map context
+// writes the entry header and is excluded by precondition): an unknown member is an error exactly when unknown
+// fields are disallowed — under DisallowUnknownField a successful return never switches the visitor into skipping,
+// at the root AND in nested messages; without the option a successful return either resolved the member
+// (globalFieldDesc set) or switched skipping on. Descriptor look-ups are trusted to be read-only.
+//@ spec (*visitorUserNode).OnObjectKey
+//@   props C09 C06
+//@   requires st: self != nil && self.opts != nil && int(self.sp) < len(self.stk) && !samerg(self, self.stk) && !samerg(self.opts, self) && !samerg(self.opts, self.stk)
+//@   requires notmap: self.stk[int(self.sp)].typ != mapStkType
+//@   requires ctx: self.stk[int(self.sp)].state.msgDesc == nil ==> self.stk[int(self.sp)].state.fieldDesc != nil && self.stk[int(self.sp)].state.fieldDesc.typ != nil && \
+//@       (self.stk[int(self.sp)].typ == objStkType ==> self.stk[int(self.sp)].state.fieldDesc.typ.msg != nil)      // stack invariant: an object context is only pushed for a field with a message descriptor (OnObjectBegin#post:msgonly)
+//@   ensures strict: self.opts.DisallowUnknownField && r0 == nil ==> self.inskip == old(self.inskip)
+//@   ensures lenient: r0 == nil ==> self.inskip || self.globalFieldDesc != nil
+//@   modifies self.inskip, self.globalFieldDesc
+
+// The visitor's stack has 256 entries and sp is a uint8, so a push can never index outside it; a field descriptor
+// always carries a type descriptor (schema well-formedness, precondition).
+//@ pure vst(self *visitorUserNode) bool = self != nil && self.opts != nil && self.p != nil && len(self.stk) == 256 && !samerg(self, self.stk) && !samerg(self.p, self) && \
+//@      !samerg(self.p, self.stk) && !samerg(self.p.Buf, self) && !samerg(self.p.Buf, self.stk) && !samerg(self.p.Buf, self.p) && 0 <= self.p.Read && self.p.Read <= len(self.p.Buf)
+//@ pure cur(self *visitorUserNode) *proto.FieldDescriptor = ite(self.globalFieldDesc == nil && self.stk[int(self.sp)].typ == arrStkType, self.stk[int(self.sp)].state.fieldDesc, self.globalFieldDesc)
+
+// OnObjectBegin: an object is accepted for a map field (context pushed, nothing written) and for a field with a
+// message descriptor (tag with wire type BYTES and a one-byte length placeholder written, context pushed); for any
+// other field it is a type mismatch. Once the context is pushed the field is no longer "the value being read"
+// (globalFieldDesc == nil): an EMPTY object must end the context, not a scalar.
+//@ spec (*visitorUserNode).OnObjectBegin
+//@   props C09 C06
+//@   requires st: vst(self)
+//@   requires schema: cur(self) != nil ==> cur(self).typ != nil && !samerg(cur(self), self.p.Buf) && !samerg(cur(self), self) && !samerg(cur(self), self.stk) && !samerg(cur(self), self.p) && \
+//@       !samerg(cur(self).typ, self.p.Buf) && !samerg(cur(self).typ, self) && !samerg(cur(self).typ, self.stk) && !samerg(cur(self).typ, self.p)
+//@   ensures skip: old(self.inskip) ==> self.sp == old(self.sp) && len(self.p.Buf) == old(len(self.p.Buf))
+//@   ensures msgonly: !old(self.inskip) && old(cur(self)) != nil && old(cur(self).typ.typ) != proto.MAP && old(cur(self).typ.msg) == nil ==> r0 != nil && self.sp == old(self.sp)
+//@   ensures pushed: !old(self.inskip) && old(cur(self)) != nil && r0 == nil ==> self.sp == old(self.sp) + 1 && self.globalFieldDesc == nil && \
+//@       self.stk[int(self.sp)].state.fieldDesc == old(cur(self)) && self.stk[int(self.sp)].typ == ite(old(cur(self).typ.typ) == proto.MAP, mapStkType, objStkType)
+//@   ensures mapquiet: !old(self.inskip) && old(cur(self)) != nil && old(cur(self).typ.typ) == proto.MAP ==> len(self.p.Buf) == old(len(self.p.Buf)) && same(self.p.Buf, old(self.p.Buf))
+//@   modifies self.sp, self.globalFieldDesc, self.stk[0:256], self.p.Buf, bytes(self.p.Buf)
+
+// OnArrayBegin: the list context is pushed (a packed list first gets its tag and length placeholder) and the
+// field is taken off globalFieldDesc, so that an EMPTY array ends the list and not a scalar.
+//@ spec (*visitorUserNode).OnArrayBegin
+//@   props C09 C06
+//@   requires st: vst(self)
+//@   requires schema: self.globalFieldDesc != nil ==> self.globalFieldDesc.typ != nil && (self.globalFieldDesc.typ.typ == proto.LIST ==> self.globalFieldDesc.typ.elem != nil && self.globalFieldDesc.typ.elem.typ != proto.LIST && self.globalFieldDesc.typ.elem.typ != proto.MAP) && \
+//@       !samerg(self.globalFieldDesc, self.p.Buf) && !samerg(self.globalFieldDesc, self) && !samerg(self.globalFieldDesc, self.stk) && !samerg(self.globalFieldDesc, self.p) && \
+//@       !samerg(self.globalFieldDesc.typ, self.p.Buf) && !samerg(self.globalFieldDesc.typ, self) && !samerg(self.globalFieldDesc.typ, self.stk) && !samerg(self.globalFieldDesc.typ, self.p)
+//@   ensures skip: old(self.inskip) ==> self.sp == old(self.sp) && len(self.p.Buf) == old(len(self.p.Buf))
+//@   ensures pushed: !old(self.inskip) && old(self.globalFieldDesc) != nil && r0 == nil ==> self.sp == old(self.sp) + 1 && self.globalFieldDesc == nil && \
+//@       self.stk[int(self.sp)].state.fieldDesc == old(self.globalFieldDesc) && self.stk[int(self.sp)].typ == arrStkType
+//@   modifies self.sp, self.globalFieldDesc, self.stk[0:256], self.p.Buf, bytes(self.p.Buf)
+
+// onValueEnd: a scalar that was read for a named member (globalFieldDesc) is done — inside a map it closes the
+// pair (length placeholder of the entry resolved, pair context popped); otherwise nothing is written. A finished
+// object / array / map pops its context (an object inside a map pair also closes the pair). The stack pointer
+// never underflows when the contexts were pushed by the Begin handlers (sp >= 1 for a non-root context).
+//@ spec (*visitorUserNode).onValueEnd
+//@   props C09 C06
+//@   requires st: vst(self)
+//@   requires depth: (self.globalFieldDesc != nil && self.stk[int(self.sp)].typ == mapStkType ==> self.sp >= 1) && (self.globalFieldDesc == nil && self.sp != 0 ==> \
+//@       (self.stk[int(self.sp)].typ == objStkType && self.stk[int(self.sp) - 1].typ == mapStkType ==> self.sp >= 2))
+//@   requires pos: (self.globalFieldDesc != nil && self.stk[int(self.sp)].typ == mapStkType ==> 0 <= self.stk[int(self.sp)].state.lenPos && self.stk[int(self.sp)].state.lenPos < len(self.p.Buf)) && \
+//@       (self.globalFieldDesc == nil && self.sp != 0 && self.stk[int(self.sp)].typ == objStkType && self.stk[int(self.sp) - 1].typ == mapStkType ==> \
+//@        0 <= self.stk[int(self.sp) - 1].state.lenPos && self.stk[int(self.sp) - 1].state.lenPos < len(self.p.Buf))      // stack discipline: a map context that is closed here is a PAIR context (pushed by OnObjectKey with its length placeholder), never the map's own context (lenPos -1)
+//@   ensures scalar: old(self.globalFieldDesc) != nil ==> r0 == nil && self.globalFieldDesc == nil && \
+//@       self.sp == ite(old(self.stk[int(self.sp)].typ) == mapStkType, old(self.sp) - 1, old(self.sp))
+//@   ensures quiet: old(self.globalFieldDesc) != nil && old(self.stk[int(self.sp)].typ) != mapStkType ==> same(self.p.Buf, old(self.p.Buf)) && len(self.p.Buf) == old(len(self.p.Buf))
+//@   ensures root: old(self.globalFieldDesc) == nil && old(self.sp) == 0 ==> r0 == nil && self.sp == 0 && same(self.p.Buf, old(self.p.Buf)) && len(self.p.Buf) == old(len(self.p.Buf))
+//@   modifies self.sp, self.globalFieldDesc, self.stk[0:256], self.p.Buf, bytes(self.p.Buf)
+
+// ---- scalar handlers -------------------------------------------------------------------------------------------
+// A value that arrives while skipping only ends the skipping. Otherwise the field it belongs to is globalFieldDesc,
+// or — for an element of a list — the descriptor on top of the stack; when there is NEITHER (a scalar as the whole
+// document, or directly inside an array that has no list field) the handler returns an error instead of
+// dereferencing nil. A successful return leaves skipping off. What is written is specified per kind for OnInt64.
+//@ pure valok(self *visitorUserNode) bool = (self.globalFieldDesc != nil && self.stk[int(self.sp)].typ == mapStkType ==> self.sp >= 1 && \
+//@      0 <= self.stk[int(self.sp)].state.lenPos && self.stk[int(self.sp)].state.lenPos < len(self.p.Buf))
+//@ pure curok(self *visitorUserNode) bool = cur(self) != nil ==> cur(self).typ != nil && !samerg(cur(self), self.p.Buf) && !samerg(cur(self), self) && !samerg(cur(self), self.stk) && \
+//@      !samerg(cur(self), self.p) && !samerg(cur(self).typ, self.p.Buf) && !samerg(cur(self).typ, self) && !samerg(cur(self).typ, self.stk) && !samerg(cur(self).typ, self.p)
+
+//@ spec (*visitorUserNode).OnBool
+//@   props C09 C06
+//@   requires st: vst(self) && valok(self) && curok(self)
+//@   ensures skipped: old(self.inskip) ==> r0 == nil && !self.inskip && same(self.p.Buf, old(self.p.Buf)) && len(self.p.Buf) == old(len(self.p.Buf)) && self.sp == old(self.sp)
+//@   ensures nofield: !old(self.inskip) && old(cur(self)) == nil ==> r0 != nil
+//@   ensures done: r0 == nil ==> !self.inskip
+//@   modifies self.inskip, self.sp, self.globalFieldDesc, self.stk[0:256], self.p.Buf, bytes(self.p.Buf)
+
+//@ spec (*visitorUserNode).OnFloat64
+//@   props C09 C06
+//@   requires st: vst(self) && valok(self) && curok(self)
+//@   ensures skipped: old(self.inskip) ==> r0 == nil && !self.inskip && same(self.p.Buf, old(self.p.Buf)) && len(self.p.Buf) == old(len(self.p.Buf)) && self.sp == old(self.sp)
+//@   ensures nofield: !old(self.inskip) && old(cur(self)) == nil ==> r0 != nil
+//@   ensures done: r0 == nil ==> !self.inskip
+//@   modifies self.inskip, self.sp, self.globalFieldDesc, self.stk[0:256], self.p.Buf, bytes(self.p.Buf)
+
+// OnInt64, the field itself (not a list element, not a map value): the bytes appended are the field tag followed by
+// the value in the field's encoding — length per kind below (varint of the 32-bit truncation for the 32-bit kinds,
+// zig-zag for sint, 4 / 8 bytes for the fixed kinds).
+//@ spec (*visitorUserNode).OnInt64
+//@   props C09 C06
+//@   requires st: vst(self) && valok(self) && curok(self)
+//@   ensures skipped: old(self.inskip) ==> r0 == nil && !self.inskip && same(self.p.Buf, old(self.p.Buf)) && len(self.p.Buf) == old(len(self.p.Buf)) && self.sp == old(self.sp)
+//@   ensures nofield: !old(self.inskip) && old(cur(self)) == nil ==> r0 != nil
+//@   ensures done: r0 == nil ==> !self.inskip
+//@   ensures otherkind: !old(self.inskip) && old(cur(self)) != nil && old(cur(self).kind) != proto.Int32Kind && old(cur(self).kind) != proto.Sint32Kind && old(cur(self).kind) != proto.Sfixed32Kind && \
+//@       old(cur(self).kind) != proto.Fixed32Kind && old(cur(self).kind) != proto.Uint32Kind && old(cur(self).kind) != proto.Uint64Kind && old(cur(self).kind) != proto.Int64Kind && \
+//@       old(cur(self).kind) != proto.Sint64Kind && old(cur(self).kind) != proto.Sfixed64Kind && old(cur(self).kind) != proto.Fixed64Kind && old(cur(self).kind) != proto.FloatKind && \
+//@       old(cur(self).kind) != proto.DoubleKind ==> r0 != nil
+//@   modifies self.inskip, self.sp, self.globalFieldDesc, self.stk[0:256], self.p.Buf, bytes(self.p.Buf)
+
+// OnNull: a null member is omitted — the field is forgotten (inside a map the pair is closed with its key only),
+// nothing else moves; a null that is not a member's value (list element, whole document) changes nothing.
+//@ spec (*visitorUserNode).OnNull
+//@   props C09 C06
+//@   requires st: vst(self) && valok(self)
+//@   ensures skipped: old(self.inskip) ==> r0 == nil && !self.inskip && same(self.p.Buf, old(self.p.Buf)) && len(self.p.Buf) == old(len(self.p.Buf)) && self.sp == old(self.sp)
+//@   ensures member: !old(self.inskip) && old(self.globalFieldDesc) != nil ==> r0 == nil && self.globalFieldDesc == nil && \
+//@       self.sp == ite(old(self.stk[int(self.sp)].typ) == mapStkType, old(self.sp) - 1, old(self.sp))
+//@   ensures element: !old(self.inskip) && old(self.globalFieldDesc) == nil ==> r0 == nil && self.sp == old(self.sp) && same(self.p.Buf, old(self.p.Buf)) && len(self.p.Buf) == old(len(self.p.Buf))
+//@   modifies self.inskip, self.sp, self.globalFieldDesc, self.stk[0:256], self.p.Buf, bytes(self.p.Buf)
+
+// OnString: as the other scalar handlers (a string for a field that is neither string nor bytes is a mismatch).
+// base64 decoding is external: trusted to return a slice of its own.
+//@ spec decodeBinary
+//@   trusted
+//@   ensures own: r1 == nil ==> fresh(r0)
+//@ spec (*visitorUserNode).OnString
+//@   props C09 C06
+//@   requires st: vst(self) && valok(self) && !samerg(v, self.p.Buf)
+//@   requires schema: (self.globalFieldDesc != nil ==> self.globalFieldDesc.typ != nil) && (self.stk[int(self.sp)].state.fieldDesc != nil ==> self.stk[int(self.sp)].state.fieldDesc.typ != nil)
+//@   ensures skipped: old(self.inskip) ==> r0 == nil && !self.inskip && same(self.p.Buf, old(self.p.Buf)) && len(self.p.Buf) == old(len(self.p.Buf)) && self.sp == old(self.sp)
+//@   ensures done: r0 == nil ==> !self.inskip
+//@   modifies self.inskip, self.sp, self.globalFieldDesc, self.stk[0:256], self.p.Buf, bytes(self.p.Buf)
+
+// OnObjectEnd / OnArrayEnd: the length placeholder of the context (if it has one) is resolved, then the context is
+// popped by onValueEnd.
+//@ spec (*visitorUserNode).OnObjectEnd
+//@   props C09 C06
+//@   requires st: vst(self) && valok(self)
+//@   requires ctx: !self.inskip ==> (self.stk[int(self.sp)].state.lenPos != 0 - 1 ==> 0 <= self.stk[int(self.sp)].state.lenPos && self.stk[int(self.sp)].state.lenPos < len(self.p.Buf))
+//@   requires depth: !self.inskip ==> self.globalFieldDesc == nil && (self.sp != 0 && self.stk[int(self.sp)].typ == objStkType && self.stk[int(self.sp) - 1].typ == mapStkType ==> self.sp >= 2 && \
+//@       0 <= self.stk[int(self.sp) - 1].state.lenPos && self.stk[int(self.sp) - 1].state.lenPos < len(self.p.Buf))      // stack discipline: no member is pending when an object ends; an object inside a map sits on its PAIR context
+//@   ensures skipped: old(self.inskip) ==> r0 == nil && !self.inskip && same(self.p.Buf, old(self.p.Buf)) && len(self.p.Buf) == old(len(self.p.Buf)) && self.sp == old(self.sp)
+//@   modifies self.inskip, self.sp, self.globalFieldDesc, self.stk[0:256], self.p.Buf, bytes(self.p.Buf)
+
+//@ spec (*visitorUserNode).OnArrayEnd
+//@   props C09 C06
+//@   requires st: vst(self) && valok(self)
+//@   requires ctx: !self.inskip ==> self.globalFieldDesc == nil && (self.stk[int(self.sp)].state.lenPos != 0 - 1 ==> 0 <= self.stk[int(self.sp)].state.lenPos && self.stk[int(self.sp)].state.lenPos < len(self.p.Buf) && \
+//@       self.stk[int(self.sp)].state.fieldDesc != nil && self.stk[int(self.sp)].state.fieldDesc.typ != nil && \
+//@       (self.stk[int(self.sp)].state.fieldDesc.typ.typ == proto.LIST ==> self.stk[int(self.sp)].state.fieldDesc.typ.elem != nil && self.stk[int(self.sp)].state.fieldDesc.typ.elem.typ != proto.LIST && self.stk[int(self.sp)].state.fieldDesc.typ.elem.typ != proto.MAP) && \
+//@       !samerg(self.stk[int(self.sp)].state.fieldDesc, self.p.Buf) && !samerg(self.stk[int(self.sp)].state.fieldDesc.typ, self.p.Buf) && !samerg(self.stk[int(self.sp)].state.fieldDesc.typ.elem, self.p.Buf))
+//@   requires depth: !self.inskip ==> (self.sp != 0 && self.stk[int(self.sp)].typ == objStkType && self.stk[int(self.sp) - 1].typ == mapStkType ==> self.sp >= 2 && \
+//@       0 <= self.stk[int(self.sp) - 1].state.lenPos && self.stk[int(self.sp) - 1].state.lenPos < len(self.p.Buf))
+//@   ensures skipped: old(self.inskip) ==> r0 == nil && !self.inskip && same(self.p.Buf, old(self.p.Buf)) && len(self.p.Buf) == old(len(self.p.Buf)) && self.sp == old(self.sp)
+//@   modifies self.inskip, self.sp, self.globalFieldDesc, self.stk[0:256], self.p.Buf, bytes(self.p.Buf)
